@@ -2,6 +2,7 @@ import PyGam.Proofs.Expectile
 import PyGam.Proofs.ExpectileSearch
 import PyGam.Proofs.Dists
 import PyGam.Gen.Formulas
+import PyGam.Gen.Decisions
 /-!
 # C18 — ExpectileGAM fits the requested expectile; fit_quantile reaches its quantile
 
@@ -421,5 +422,19 @@ theorem gen_formula_W_expectile_real (τ : ℝ) (h0 : 0 ≤ τ) (h1 : τ ≤ 1) 
     (fun a b hb => by simpa using Real.sqrt_mul' a hb) τ h0 h1 w y mu i
 
 end gen_formulas
+
+/-! ### tie to the source by translation of the decision logic (`gen_decision_*`)
+
+`Gen/Decisions.lean` is regenerated on every run from the abstract syntax tree of `pygam/pygam.py`: `Gen.within_tol` is the
+helper `_within_tol(a, b, tol) = np.abs(a - b) <= tol` nested in `ExpectileGAM.fit_quantile` (the stopping test of the
+search), `np.abs(x)` written `if x < 0 then -x else x`. -/
+section gen_decisions
+
+/-- `_within_tol` is the model's `withinTol` (which writes `0 - d` for `-d`): equal over every linearly ordered field -/
+theorem gen_decision_within_tol (a b tol : α) : Gen.within_tol a b tol = withinTol a b tol := by
+  unfold Gen.within_tol withinTol
+  by_cases h : a - b < 0 <;> by_cases h2 : a - b ≤ tol <;> simp [h, h2]
+
+end gen_decisions
 
 end PyGam.C18
